@@ -66,6 +66,8 @@ CFG = {
         "Swat4.C03.browser_listing_any",
         "Swat4.C03.facts_frontend_status",
         "Swat4.C03.facts_frontend_liveness",
+        "Swat4.C03.facts_rest_prepare_query",
+        "Swat4.C03.facts_rest_prepare_query_model",
     ],
     # proved in the Lean files and used by other proofs, but NOT audited as property theorems: each is a
     # read-back of a definition, glue between two names, true by type, or a corollary of an audited theorem
@@ -100,7 +102,7 @@ CFG = {
     ],
     "trusted_base": COMMON_TRUSTED,
     "manifest": {
-        "text": "Lean theorems over a byte-level model of filter.Parse/New/parseRawFilterValue (incl. strconv.Atoi), query.NewFromString/scanFilter, Filter.Match/Query.Match over the reflected Info schema, the browser's parse-error-to-blank-query rule, prepareQuery and listservers.Execute over servers.Filter: selection_eq_filter (for every registry, clock, liveness, 9-bit required status and clause list the listing is exactly the records with status & required = required, refreshedAt non-zero and >= now - liveness, and every clause satisfied), boundary_inclusive, match_sat (Match of any clause on any record = the declarative meaning sat: ints and 0/1-bools under = != < >, strings under = != only, field references by the right-hand field's type, everything else false), parse_render (NewFromString reads back the rendering of any non-empty list of well-formed clauses), malformed_is_blank (any parse error gives the blank query, which matches everything), rest_flags/rest_listing (six REST flags = the specified clauses), C03_main (browser listing for a grammar string = specification's selection), browser_listing_parsed / browser_listing_any (the same for EVERY string the parser accepts, canonical or not, resp. every byte string: the listing is the specification's selection for the clauses the parser returned), parse_sound (converse of parse_render: an accepted string is a spelling, in the lenient grammar QueryText - optional sign and leading zeros, any bytes between the outer quotes, optional trailing ' and ' - of exactly the clauses returned), parse_complete / accepted_language (conversely every such spelling is accepted and read as spelt, so QueryText is exactly the accepted language), C03_lenient (listing = specification's selection for every spelling), filter_parse_never_panics (the checked form of scanFilter/filter.Parse/parseRawFilterValue/NewFromString, with every Go index and slice expression explicit on the string the source applies it to and a panic outcome, equals the total form on every byte string: no out-of-range index, no endless loop). Lemmas/FilterLeniency.lean pins ~120 edge-case strings to the answers the real Go parser gave when they were written (frozen text); the same strings are in harness/corpus/C03/parse-examples.case, so every check compares the real parser with the model on each of them again. The model is tied to the code by differential runs of parse, match, listservers.Execute on the real repository, the real browser handler over TCP and GET /api/servers; the oracle is the specification's predicate evaluated on the implementation's listing.",
+        "text": "Lean theorems over a byte-level model of filter.Parse/New/parseRawFilterValue (incl. strconv.Atoi), query.NewFromString/scanFilter, Filter.Match/Query.Match over the reflected Info schema, the browser's parse-error-to-blank-query rule, prepareQuery and listservers.Execute over servers.Filter: selection_eq_filter (for every registry, clock, liveness, 9-bit required status and clause list the listing is exactly the records with status & required = required, refreshedAt non-zero and >= now - liveness, and every clause satisfied), boundary_inclusive, match_sat (Match of any clause on any record = the declarative meaning sat: ints and 0/1-bools under = != < >, strings under = != only, field references by the right-hand field's type, everything else false), parse_render (NewFromString reads back the rendering of any non-empty list of well-formed clauses), malformed_is_blank (any parse error gives the blank query, which matches everything), rest_flags/rest_listing (six REST flags = the specified clauses), facts_rest_prepare_query / facts_rest_prepare_query_model (go/ast inventory of servers_list.go prepareQuery: the six `if cond { filter.New(field, op, value) }` rows with their conditions, the rest of the function, maybeAddFilter and the form's struct tags are pinned literally, and the field / operator literals as bytes are the constants the model's prepareQuery passes to newFilter, in the same order), C03_main (browser listing for a grammar string = specification's selection), browser_listing_parsed / browser_listing_any (the same for EVERY string the parser accepts, canonical or not, resp. every byte string: the listing is the specification's selection for the clauses the parser returned), parse_sound (converse of parse_render: an accepted string is a spelling, in the lenient grammar QueryText - optional sign and leading zeros, any bytes between the outer quotes, optional trailing ' and ' - of exactly the clauses returned), parse_complete / accepted_language (conversely every such spelling is accepted and read as spelt, so QueryText is exactly the accepted language), C03_lenient (listing = specification's selection for every spelling), filter_parse_never_panics (the checked form of scanFilter/filter.Parse/parseRawFilterValue/NewFromString, with every Go index and slice expression explicit on the string the source applies it to and a panic outcome, equals the total form on every byte string: no out-of-range index, no endless loop). Lemmas/FilterLeniency.lean pins ~120 edge-case strings to the answers the real Go parser gave when they were written (frozen text); the same strings are in harness/corpus/C03/parse-examples.case, so every check compares the real parser with the model on each of them again. The model is tied to the code by differential runs of parse, match, listservers.Execute on the real repository, the real browser handler over TCP and GET /api/servers; the oracle is the specification's predicate evaluated on the implementation's listing.",
         "level_note": "Trusted: Lean kernel; axioms propext, Quot.sound, Classical.choice; the specification Spec/FilterSpec.lean (sat, render, WfClause, selected, flagClauses) as the reading of the property text; the finite differential run as evidence that Model/Filter.lean behaves like the Go code (the scanner is modelled twice: in takeWhile/dropWhile form, and expression by expression with checked index/slice operations; the two are proved equal, the second is a hand transcription of the Go source); generated Facts.lean (Info schema by reflection through params.GetParamName, IsQueryField via go/ast + the compiled predicate, ds.Members()); miniredis for ZRANGEBYSCORE/SINTER; JSON round trip of stored records; float64 score exactness under A-time; gin query binding.",
         "technique": "Lean 4 proof (decision logic + scanner round trip) + differential correspondence",
         "design_ref": "DESIGN.md §5 C03",
